@@ -180,3 +180,26 @@ Example C06_nonvacuous :
 Proof.
   split; [repeat constructor; cbn; discriminate|]. split; [reflexivity|]. vm_compute. repeat split.
 Qed.
+
+(* non-vacuity of the per-operation statements: concrete states and operations that meet their hypotheses *)
+Definition nv_s1 : state := reachable 10 nv_fund [2] [OLock 1 1 100 5; OLock 2 1 70 5].
+Example C06_nonvacuous_split :
+  Inv0 nv_s1 /\ exists s' l, msg_begin_unlocking nv_s1 1 1 1 40 = Ok s' /\ get_lock (s_locks nv_s1) 1 = Some l /\
+    is_partial 1 40 l = true /\ map l_amt (s_locks s') = [60; 70; 40] /\ map l_end (s_locks s') = [0; 0; 15].
+Proof.
+  split; [apply run_Inv0; [apply init_Inv0|repeat constructor; cbn; discriminate]|].
+  eexists. eexists. split; [vm_compute; reflexivity|]. split; [vm_compute; reflexivity|]. vm_compute. repeat split.
+Qed.
+Example C06_nonvacuous_begin_full :
+  exists s' l, msg_begin_unlocking nv_s1 2 2 1 70 = Ok s' /\ get_lock (s_locks nv_s1) 2 = Some l /\ is_partial 1 70 l = false /\
+    map l_end (s_locks s') = [0; 15].
+Proof. eexists. eexists. split; [vm_compute; reflexivity|]. split; [vm_compute; reflexivity|]. vm_compute. repeat split. Qed.
+Example C06_nonvacuous_force :
+  (exists s', handle nv_s1 (OForce 2 2 1 30) = Ok s' /\ s_bal s' 2 1 = 960 /\ map l_amt (s_locks s') = [100; 40]) /\
+  (exists e, handle nv_s1 (OForce 1 1 1 30) = Err e).
+Proof. split; eexists; vm_compute; repeat split. Qed.
+Example C06_nonvacuous_refused_early :
+  exists s' l, msg_begin_unlocking nv_s1 1 1 1 0 = Ok s' /\ get_lock (s_locks s') 1 = Some l /\ s_now s' < l_end l /\
+    unlock_matured_lock s' 1 = Err ENotMatured /\
+    s_bal (fst (step (fst (step s' (OTime 15))) (OUnlock 1))) 1 1 = 1000.
+Proof. eexists. eexists. split; [vm_compute; reflexivity|]. split; [vm_compute; reflexivity|]. vm_compute. repeat split. Qed.
